@@ -90,6 +90,15 @@ def S3.evict (s : S3) : Option (Rec × S3) :=
       | e :: rest => some (e.r, { s1 with main, mainW := mw, small := rest, smallW := s1.smallW - e.r.weight })
       | [] => none
 
+/-- `Eviction::clear` is the default `while self.pop().is_some() {}`: every popped record may also
+enter the ghost queue, which later pushes consult — so the loop is reproduced, not short-cut. -/
+def S3.clearGo : Nat → S3 → S3
+  | 0, s => s
+  | fuel + 1, s =>
+    match s.evict with
+    | none => s
+    | some (_, s') => S3.clearGo fuel s'
+
 def s3Policy (smallFn ghostFn : Nat → Nat) (threshold : Nat) : Policy S3 where
   init cap := { small := [], main := [], ghost := { q := [], set := [], cap := ghostFn cap, weight := 0 },
                 smallCap := smallFn cap, smallW := 0, mainW := 0, threshold := min threshold 3 }
@@ -107,16 +116,7 @@ def s3Policy (smallFn ghostFn : Nat → Nat) (threshold : Nat) : Policy S3 where
     { s with small := bump s.small, main := bump s.main }
   release s _ := s
   update s cap := { s with ghost := s.ghost.update (ghostFn cap), smallCap := smallFn cap }
-  clear s :=
-    -- `while self.pop().is_some() {}`: every popped record may also enter the ghost queue; the
-    -- only caller (`RawCacheShard::clear`) never looks at the ghost queue's content again through
-    -- these records, but later pushes do, so the ghost effect is reproduced by iterating `evict`.
-    let rec go : Nat → S3 → S3
-      | 0, s => s
-      | fuel + 1, s => match s.evict with
-        | none => s
-        | some (_, s') => go fuel s'
-    go (s.small.length + s.main.length + 1) s
+  clear s := S3.clearGo (s.small.length + s.main.length + 1) s
   members s := (s.small ++ s.main).map (·.r)
 
 end Foyer
